@@ -328,6 +328,11 @@ func body(w *hx.W) {
 			w.Sample(map[string]string{"kind": "random utf8 and mutated encoding", "utf8": short(s), "reference_encoding": enc, "mutant_fed_to_decoder": short(string(m))})
 		}
 	}
+	// 3b. long histories through the same process-wide codec
+	if w.Shard < 4 {
+		c.history(rng, w.Pick(1500, 20000))
+		w.CaseStr(fmt.Sprintf("history/%d", w.Shard))
+	}
 	// 4. targeted chunked cases: tokens that do not fit small buffers and state carried across calls
 	for i, s := range []string{"&AGE-&Jjo-", "a&Jjo-&Jjo-", "&Jjo-a&Jjo-", "ab&-&AAA-&-", "&U,BTF2XlZyyKng-x", "&2D3eCg-&-&2D3eCw-", "x&AAAAHwB,AIA-&AAA-", "&AAA-&AAA-&AAA-", "&-&-&-&-", "&Jjo--&Jjo-"} {
 		if w.Mine(i) {
@@ -337,6 +342,47 @@ func body(w *hx.W) {
 			w.Class("chunked/targeted")
 		}
 	}
+}
+
+// history: the codec is used over and over by one process (every mailbox argument of every
+// connection goes through it). Results must not depend on what was encoded or decoded before:
+// thousands of distinct names are run through both directions, then all of them again in the same
+// and in reverse order, and every result is judged by the reference codec each time.
+func (c *checker) history(rng *rand.Rand, n int) {
+	names := make([]string, 0, n)
+	seen := map[string]bool{}
+	for len(names) < n {
+		var s string
+		switch rng.Intn(4) {
+		case 0:
+			s = fmt.Sprintf("Projects/%c%c/%d", rune(0x4e00+rng.Intn(0x3000)), rune(0x3040+rng.Intn(0x60)), len(names))
+		case 1:
+			s = fmt.Sprintf("%c-%d&x", rune(0xc0+rng.Intn(0x500)), len(names))
+		default:
+			s = randUTF8(rng, 1+rng.Intn(12))
+		}
+		if !seen[s] && utf8.ValidString(s) {
+			seen[s] = true
+			names = append(names, s)
+		}
+	}
+	pass := func(order []int) {
+		for _, i := range order {
+			c.checkEncode(names[i])
+			enc := utf7ref.Encode(names[i])
+			c.checkDecode(enc)
+		}
+	}
+	fwd := make([]int, n)
+	rev := make([]int, n)
+	for i := range fwd {
+		fwd[i], rev[i] = i, n-1-i
+	}
+	pass(fwd)
+	pass(fwd)
+	pass(rev)
+	c.w.Metric("history_names", int64(n))
+	c.w.Class("history")
 }
 
 func randUTF8(rng *rand.Rand, n int) string {
@@ -393,7 +439,7 @@ func main() {
 		ID:    "C16",
 		Level: "exploration",
 		Rule: "encoder inputs: every string over the 9-symbol alphabet {a,&,-,~,U+0001,é,€,𝄞,U+FFFD} up to the length bound; decoder inputs: every byte string over {&,-,A,a,Q,/,',',+,=,0x7F,0xC3} up to the length bound (each enumerated string is a distinct case); " +
-			"plus random long valid-UTF-8 strings, mutated encodings, and streamed runs for every source chunk size 1..8 x destination size 1..16 on a sample",
+			"plus random long valid-UTF-8 strings, mutated encodings, histories of 1500..20000 distinct names encoded and decoded three times over in one process, and streamed runs for every source chunk size 1..8 x destination size 1..16 on a sample",
 		Assumptions: []string{
 			"reference codec internal/ref/utf7ref written from RFC 3501 §5.1.3; inputs whose only flaw is non-zero discarded base64 bits are 'unspecified' (accept or reject both admissible, but an accepted output must be the reference output)",
 			"the streaming driver grows the destination only when a Transform call made no progress (nDst=nSrc=0) with ErrShortDst",
